@@ -94,6 +94,14 @@ def run(ck, facts, tier):
     r1 = ck.rule("R20.1", "every panic edge (MIR Assert, unwrap/expect/panic!/assert!, indexing and other aborting externals) in a function "
                           "reachable from an entry point is covered by the reviewed table (rules/c20_sites.json): per function (with its closures and the private "
                           "helpers extracted from it) and kind, no more sites than reviewed, each control dependent on at least as many dominating branches", floor=150)
+    from rules import bounds
+    _safe = {}
+
+    def safe_cache(fn_name):
+        if fn_name not in _safe:
+            rec_ = facts.fn(fn_name)
+            _safe[fn_name] = bounds.safe_sites(rec_) if rec_ is not None else set()
+        return _safe[fn_name]
     nsites = 0
     # Sites are judged per (root function, kind) as a multiset of control depths: the function's own sites, those of the closures nested in it (closure
     # numbering shifts under harmless edits) and those of private helpers extracted from it must fit the reviewed budget — no more sites than reviewed, and an
@@ -120,6 +128,10 @@ def run(ck, facts, tier):
                     where = "%s:%d" % (facts.mir[fn_]["file"], ln)
                     key = "%s:%s#%d" % (fam, kind, n)
                     via = "" if cc.root_of(fn_) == root else " (in helper %s)" % fn_
+                    if n >= len(budget) and bounds.kind_class(kind) and (ln, bounds.kind_class(kind)) in safe_cache(fn_):
+                        # no reviewed row, but safe by the shape of the counted loop it sits in (rules/bounds.py): `c[i + C]` inside `for i in A..c.len() + D`
+                        ck.ok(r1, key, sample="discharged by the affine-index rule: index within the bounds of its counted loop")
+                        continue
                     if n >= len(budget):
                         ck.fail(r1, key, "unreviewed panic edge `%s` reachable from a fallible/total entry point (in %s%s): %d site(s), %d reviewed"
                                 % (kind, root, via, len(sites), len(budget)), where, "path: " + " <- ".join(call_path(P, root)))
@@ -385,7 +397,7 @@ def shape_rule(ck, facts, accept=None):
     LT, q0 = Poly.atom(("len", vkey(T_), None)), Poly.atom("q0")
     lit = lambda v, pol: next(iter(paths.atoms({(vkey(v), pol)})))
     inv = {lit(cel.cmp_sym("Lt", LT, Poly.const(2), True), False),
-           (("sym", "forall", vkey(Sym("zip", vkey(T_), vkey(Sym("skip", vkey(T_), Poly.const(1).key())))), vkey(cel.cmp_sym("Le", tel(q0), tel(q0 + Poly.const(1))))), True),
+           (("sym", "forall", vkey(Sym("range", Poly.const(0).key(), (LT - Poly.const(1)).key())), vkey(cel.cmp_sym("Le", tel(q0), tel(q0 + Poly.const(1))))), True),   # consecutive knots (canon_seq form)
            lit(cel.cmp_sym("Lt", K, Poly.const(1), True), False),
            lit(cel.eq_sym(Sym("checked", "sub", LT.key(), K.key()), Sym("ctor", "Some", N)), True)}
     inv_c = lit(cel.cmp_sym("Eq", Poly.atom(("len", vkey(CV), None)), N), True)
